@@ -313,10 +313,17 @@ func Woke(site string) {
 }
 
 // Pref is the scheduling point in front of a rewritten select with n
-// communication cases. It returns the case the scheduler prefers, or -1.
+// communication cases. It returns the case the scheduler prefers, -1 for
+// "none, probe in source order" (deterministic; used while an execution
+// drains or runs free), or -2 when no scheduler exists at all (the
+// conformance run of the repository's own tests): the rewritten select then
+// behaves exactly like the original one, random choice included.
 func Pref(site string, n int) int {
 	s := active.Load()
-	if s == nil || s.free.Load() {
+	if s == nil {
+		return -2
+	}
+	if s.free.Load() {
 		return -1
 	}
 	t := s.me()
